@@ -1466,6 +1466,30 @@ func pathLeavesAt(fn *ssa.Function, at ssa.Instruction, v ssa.Value) (leaves []s
 // that reaches target and reports true. With onHit every path that reaches target calls it with the
 // path's resolution of merged values and ends there; the result is then true only if the budget ran out.
 func explorePaths(fn *ssa.Function, target ssa.Instruction, assume func(v ssa.Value) Tri, barrier func(ssa.Instruction) bool, onHit func(resolve func(ssa.Value) ssa.Value)) bool {
+	return explorePathsX(fn, nil, target, nil, assume, barrier, onHit)
+}
+
+// pathFromTo: is there a feasible path that starts right after instruction from and reaches an
+// instruction accepted by isTarget without executing one accepted by barrier? (Merged values that
+// were decided before from are unknown on such a path.)
+func pathFromTo(from ssa.Instruction, isTarget func(ssa.Instruction) bool, assume func(v ssa.Value) Tri, barrier func(ssa.Instruction) bool) bool {
+	if assume == nil {
+		assume = func(ssa.Value) Tri { return U }
+	}
+	return explorePathsX(from.Parent(), from, nil, isTarget, assume, barrier, nil)
+}
+
+func explorePathsX(fn *ssa.Function, start ssa.Instruction, target ssa.Instruction, isTarget func(ssa.Instruction) bool, assume func(v ssa.Value) Tri, barrier func(ssa.Instruction) bool, onHit func(resolve func(ssa.Value) ssa.Value)) bool {
+	if isTarget == nil {
+		isTarget = func(in ssa.Instruction) bool { return in == target }
+	}
+	if barrier == nil && (start != nil || target == nil) {
+		barrier = func(ssa.Instruction) bool { return false }
+	}
+	skip := 0 // instructions of the first block that lie before the start
+	if start != nil {
+		skip = instrIndex(start) + 1
+	}
 	type pathState struct {
 		decided map[string]Tri
 		phi     map[*ssa.Phi]ssa.Value
@@ -1612,8 +1636,11 @@ func explorePaths(fn *ssa.Function, target ssa.Instruction, assume func(v ssa.Va
 				}
 			} else {
 				dead := false
-				for _, in := range b.Instrs {
-					if in == target {
+				for idx, in := range b.Instrs {
+					if idx < skip {
+						continue
+					}
+					if isTarget(in) {
 						if onHit != nil {
 							onHit(func(v ssa.Value) ssa.Value {
 								for i := 0; i < 32; i++ {
@@ -1643,6 +1670,7 @@ func explorePaths(fn *ssa.Function, target ssa.Instruction, assume func(v ssa.Va
 					return
 				}
 			}
+			skip = 0
 			iff, ok := b.Instrs[len(b.Instrs)-1].(*ssa.If)
 			if !ok {
 				if len(b.Succs) == 0 {
@@ -1683,7 +1711,11 @@ func explorePaths(fn *ssa.Function, target ssa.Instruction, assume func(v ssa.Va
 			}
 		}
 	}
-	walk(fn.Blocks[0], nil, &pathState{decided: map[string]Tri{}, phi: map[*ssa.Phi]ssa.Value{}, visits: map[*ssa.BasicBlock]int{}})
+	first := fn.Blocks[0]
+	if start != nil {
+		first = start.Block()
+	}
+	walk(first, nil, &pathState{decided: map[string]Tri{}, phi: map[*ssa.Phi]ssa.Value{}, visits: map[*ssa.BasicBlock]int{}})
 	return found
 }
 
@@ -2075,4 +2107,48 @@ func callResultNonNil(c *ssa.Call, idx int, depth int) bool {
 		}
 	}
 	return n > 0
+}
+
+// calledOnlyFrom: every call of fn in the module is a plain (synchronous) call made by host or by a
+// literal that is an inline part of host: fn runs on host's goroutine as a stage of host (the locked
+// receive of a processing loop extracted into a method).
+func (a *A) calledOnlyFrom(fn, host *ssa.Function) bool {
+	if fn == nil || fn == host {
+		return fn == host
+	}
+	node := a.CG().Nodes[fn]
+	if node == nil || len(node.In) == 0 {
+		return false
+	}
+	for _, e := range node.In {
+		if e.Caller == nil || e.Caller.Func == nil {
+			return false
+		}
+		if _, isCall := e.Site.(*ssa.Call); !isCall {
+			return false // go / defer
+		}
+		if !inlinePartOf(e.Caller.Func, host) {
+			return false
+		}
+	}
+	// and it is not used as a value anywhere (handed to another goroutine)
+	for _, g := range a.ModFuncs {
+		bad := false
+		allInstrs(g, func(in ssa.Instruction) {
+			for _, op := range in.Operands(nil) {
+				if *op == ssa.Value(fn) {
+					if cc := callCommon(in); cc == nil || cc.Value != ssa.Value(fn) {
+						bad = true
+					}
+				}
+				if mc, ok := (*op).(*ssa.MakeClosure); ok && mc.Fn == ssa.Value(fn) {
+					_ = mc
+				}
+			}
+		})
+		if bad {
+			return false
+		}
+	}
+	return true
 }
